@@ -358,6 +358,68 @@ def run_rt(case, stt):
     stt.label("restorable(<1e-3)" if restore_ref <= 1e-3 * scale else "tails_truncated")
 
 
+# -- 3b. call histories: the same dedispersion repeated with one ingredient changed (caches, memoised chirps) -------------
+
+
+@st.composite
+def hist_case(draw):
+    spec = draw(dd_spec(nmin=8, nmax=40, nchan_max=4))
+    if spec["sshape"][0] % 2 and draw(st.booleans()):
+        spec["sshape"][0] += 1  # even channel counts: alignment matters
+    dmv, sel = draw(dm_and_ref(spec))
+    steps = [draw(st.sampled_from(["align", "align", "dm", "ref", "data", "cf_shift", "same", "dtype", "start"])) for _ in range(draw(st.integers(1, 4)))]
+    return {"sig": spec, "dm": dmv, "ref": sel, "steps": steps, "pick": draw(st.integers(0, 10**6))}
+
+
+def run_hist(case, stt):
+    import copy
+
+    cur = {"sig": copy.deepcopy(case["sig"]), "dm": case["dm"], "ref": case["ref"]}
+    run_cdd(cur, stt)
+    k = case["pick"]
+    for i, step in enumerate(case["steps"]):
+        cur = copy.deepcopy(cur)
+        sg = cur["sig"]
+        if step == "align":
+            opts = [a for a in ("bottom", "center", "top") if a != sg["align"]]
+            sg["align"] = opts[(k + i) % 2]
+        elif step == "dm":
+            cur["dm"] = cap_dm(sg, cur["dm"] * [2.0, -1.0, 0.5][(k + i) % 3], cur["ref"])
+        elif step == "ref":
+            cur["ref"] = REFSEL[(REFSEL.index(cur["ref"]) + 1 + (k + i) % 5) % len(REFSEL)]
+            cur["dm"] = cap_dm(sg, cur["dm"], cur["ref"])
+        elif step == "data":
+            sg["data"] = {"kind": "noise", "seed": (k + i) % 1000}
+        elif step == "cf_shift":
+            sg["cf"] = dict(sg["cf"], v=sg["cf"]["v"] * 1.25)
+            cur["dm"] = cap_dm(sg, cur["dm"], cur["ref"])
+        elif step == "dtype":
+            sg["dtype"] = "c16" if sg["dtype"] == "c8" else "c8"
+        elif step == "start":
+            sg["t0"] = None if sg["t0"] else {"mjd": 58000 + (k % 100), "frac": 0.25}
+        run_cdd(cur, stt)
+        stt.label("hist_" + step)
+    stt.nt("align" in case["steps"] and case["sig"]["sshape"][0] % 2 == 0)
+
+
+# -- 3c. long signals (beyond 2^16 samples, lengths with large prime factors) ---------------------------------------------
+
+
+@st.composite
+def long_case(draw):
+    n = draw(st.sampled_from([65537, 70001, 65536 + 4097, 100003, 2**17 + 1, 90000]))
+    spec = draw(dd_spec(nmin=n, nmax=n, nchan_max=1))
+    spec["n"], spec["cls"], spec["sshape"] = n, "BasebandSignal", [1]
+    spec.pop("pol", None)
+    dmv, sel = draw(dm_and_ref(spec))
+    lo, hi, cf = band(spec)
+    fr = ref_of(spec, sel) or cf
+    d1 = max(abs(O.disp_delay_s(F(1), f, fr) * O.fq(spec["sr"])) for f in (lo, hi))
+    if d1 > 0:
+        dmv = cap_dm(spec, math.copysign(float(F(draw(st.floats(0.001, 0.05)) * n) / d1), dmv), sel)
+    return {"sig": spec, "dm": dmv, "ref": sel}
+
+
 # -- 4. refusals ----------------------------------------------------------------------------------------------------------
 
 
@@ -382,6 +444,13 @@ SUBS = [
         "Gaussian-envelope band-limited pulse, DM then -DM, compared with the same two steps done with the exact transfer functions and "
         "required to restore the input as well as those do; non-trivial = edge delay >= 1 sample and the exact filters restore to 1e-3", quick=300, thorough=5000,
         pieces_quick=3),
+    Sub("call_history", hist_case(), run_hist,
+        "the same coherent dedispersion repeated 2..5 times in one process with exactly one ingredient changed per step (freq_align, DM, "
+        "reference, data, centre frequency, dtype, start time), each result checked against the exact filter; non-trivial = an alignment change "
+        "on an even channel count", quick=300, thorough=6000, pieces_quick=4),
+    Sub("long_signals", long_case(), lambda case, stt: (run_cdd(case, stt), stt.nt())[0],
+        "N in {65537, 69633, 70001, 90000, 100003, 131073} (beyond 2^16, not smooth), one channel, exact per-bin transfer function; all "
+        "non-trivial", quick=6, thorough=60, pieces_quick=3, pieces_thorough=8, budget_quick=120),
     Sub("refusals", G.signal_spec(classes=["Signal", "RadioSignal", "IntensitySignal", "FullStokesSignal"], nmin=2, nmax=8, nchan_max=2,
                                   max_trailing=0), run_err, "non-baseband input must raise TypeError", quick=40, thorough=400, pieces_quick=1),
 ]
